@@ -33,6 +33,11 @@ META = dict(
 OBLIGATIONS = [
     "C01_never_stale", "C01_never_stale_full_reverts", "C01_unset_is_error", "C01_read_is_scratch", "C01_unforked_set_drops_fork",
     "C01_get_transparent", "C01_clone_isolated", "C01_clone_copies", "C01_examples",
+    # composition with C15 (graph hypothesis WF discharged for every graph the modelled DAG constructor builds; reads characterised
+    # by name, independently of the order) and with C07 (F_mix from the op-kind semantics): coq/theories/Compose, docs/Compose.md
+    "C01_built_graph_wf", "C01_accepted_defs_have_wf_graph", "C01_never_stale_built", "C01_never_stale_full_reverts_built",
+    "C01_never_stale_full_reverts_nomix", "C01_scratch_is_by_name", "C01_read_by_name_built",
+    "C01_read_by_name_full_reverts_built", "C01_never_stale_opkinds_built", "C01_compose_examples",
 ]
 
 # The model variant the theorems of Props/C01.v are about (State/StateNow.v): True = State.__setitem__ as it is since 27ac519
